@@ -69,7 +69,7 @@ FIXED_STDERR = [["p", "Error: could not evaluate ", "/data/g/age", ""], ["p", "I
 
 WORDS = ["Error", "evaluating", "field", "XPath", "expression", "cycle", "binding", "relevant", "calculate", "problem", "at", "line",
          "Résumé", "form", "instance", "null", "expected", ">>>", "(bad)", "100%", "type mismatch:"]
-SEGS = ["data", "g", "grp_1", "age", "my-field", "q1", "meta", "instanceID", "Repeat9", "x_y", "hh.size", "prénom", "v1.2", "Ünï", "item", "value", "k.9-z"]
+SEGS = ["data", "g", "grp_1", "age", "my-field", "q1", "meta", "instanceID", "Repeat9", "x_y", "hh.size", "prénom", "v1.2", "Ünï", "item", "value", "k.9-z", "नाम", "สกุล", "prénom", "item_count", "body_parts"]
 POSITION = re.compile(r"\[\d+\]$")
 
 
@@ -115,7 +115,7 @@ def gen_lines(g):
     out = []
     last_text = None
     for _ in range(g.integer(1, 7)):
-        kind = g.pick(["l", "l", "p", "p", "k", "x", "s", "d"])
+        kind = g.pick(["l", "l", "p", "p", "k", "k", "x", "s", "d"])
         text = " ".join(g.pick(WORDS) for _ in range(g.integer(1, 5)))
         if text == last_text:
             text += " again"
@@ -126,11 +126,16 @@ def gen_lines(g):
             pos = g.p("_", 0.3)
             path = "/" + "/".join(g.pick(SEGS) + (f"[{g.integer(1, 12)}]" if pos and i and g.p("_", 0.6) else "")
                                   for i in range(g.pick([2, 3, 3, 4, 5, 6, 7, 9])))
-            if path.startswith(("/html/body", "/root/item", "/html/head/model/bind")) or path == "/item/value":
+            if any(path == pre or path.startswith(pre + "/") for pre in ("/html/body", "/html/head", "/root/item")) or path == "/item/value":
                 path = "/data/q1"
+            if g.p("_", 0.1):
+                # forms called root / html: their instance paths only look like the exempted locations
+                path = g.pick(["/root/item_count", "/html/body_parts/arm", "/root/items/q1", "/html/header/q"])
             ln = ["p", text + " ", path, g.pick(["", " is wrong", ".", ")"])]
         elif kind == "k":
-            path = g.pick(["/html/body/select1", "/html/body/group/input", "/html/head/model/bind", "/root/item/name"])
+            path = g.pick(["/html/body/select1", "/html/body/group/input", "/html/head/model/bind", "/root/item/name", "/html/head/model/itext/translation/text",
+                           "/html/head/model/instance", "/html/head/title", "jr://file-csv/cities.csv", "http://www.w3.org/2002/xforms", "../grp/a", "../../r1/q2",
+                           "jr://images/a/b.png"])
             ln = ["k", text + " ", path, g.pick(["", " stays"])]
             if g.p("_", 0.25):
                 # a body path with a predicate: only the instance path inside it is tokenised, the /item/value tail stays
@@ -154,7 +159,9 @@ def gen_lines(g):
         # (the whole stream is then mojibake: paths with non-ASCII names are kept out of it, their tokenisation is not defined)
         for ln in out:
             if ln[0] == "p":
-                ln[2] = ln[2].replace("prénom", "prenom").replace("Ünï", "Uni")
+                ln[2] = ln[2].encode("ascii", "ignore").decode() or "/data/q1"
+                if ln[2].count("/") < 2 or "//" in ln[2] or ln[2].endswith("/"):
+                    ln[2] = "/data/q1"
         out.insert(g.integer(0, len(out)), ["b", (b"Ung" + bytes([g.pick([0x81, 0x8d, 0x8f, 0x90, 0x9d, 0xfc, 0xe9])]) + b"ltig " + g.pick(WORDS[:8]).encode("ascii")).hex()])
     if g.p("_", 0.3):
         # validators often start with an 'Error: ' line; only the jar launcher's own 'Unable to access jarfile' text is passed through as is
@@ -162,7 +169,9 @@ def gen_lines(g):
     if any(ln[0] == "b" for ln in out):
         for ln in out:
             if ln[0] == "p":
-                ln[2] = ln[2].replace("prénom", "prenom").replace("Ünï", "Uni")
+                ln[2] = ln[2].encode("ascii", "ignore").decode() or "/data/q1"
+                if ln[2].count("/") < 2 or "//" in ln[2] or ln[2].endswith("/"):
+                    ln[2] = "/data/q1"
     return out
 
 
